@@ -2,7 +2,7 @@
    This is what the OCaml driver calls; each command evaluates model functions on a case that the
    Python harness also runs on the rebuilt implementation. *)
 From OptreeModel Require Export Wire Flatten Unflatten Spec Ops Registry Pickle Accessor.
-From OptreeModel Require Ravel Dataclass Typing Faults Depth Alias Conc ArraySpec Construct Walk PrefixErr PrefixArr UpToArr JoinArr PathsArr AccArr ComposeArr.
+From OptreeModel Require Ravel Dataclass Typing Faults Depth Alias Conc ArraySpec Construct Walk PrefixErr PrefixArr UpToArr JoinArr PathsArr AccArr ComposeArr TransformArr.
 
 Definition bad : sexp := SL [SI 2].   (* undecodable input: a harness error, never a verdict *)
 
@@ -82,7 +82,9 @@ Definition cmd_pair (c1 : cfg) (o1 : obj) (c2 : cfg) (o2 : obj) : sexp :=
            (* the array-level BroadcastToCommonSuffix walk (JoinArr.v), both argument orders *)
            enc_res enc_spec (JoinArr.arr_broadcast sp1 sp2); enc_res enc_spec (JoinArr.arr_broadcast sp2 sp1);
            (* the array-level Compose pass (ComposeArr.v) *)
-           enc_res enc_spec (ComposeArr.arr_compose sp1 sp2) ]
+           enc_res enc_spec (ComposeArr.arr_compose sp1 sp2);
+           (* the array-level Transform pass (TransformArr.v) with f_leaf = const sp2 *)
+           enc_res enc_spec (TransformArr.arr_transform_leaves sp1 sp2) ]
     | _, _ => SL [SI 4]
     end
   | _, _ => SL [SI 5]     (* one of the trees does not flatten: not a case for this command *)
